@@ -29,15 +29,22 @@ META = dict(
                'non-empty, holds at most max_bunch_size specs and strictly fewer than max_bunch_bytesize bytes (under the code\'s own '
                'assertion that each single spec is below the byte limit). The model the theorems are about is regenerated from '
                '_create_bunches on every run and proved equal to the hand model; the real method is run against it as a smoke test. '
-               'What is SENT: four further theorems (C19_sent_exactly, C19_sent_any_completion_order, C19_sent_limits, '
-               'C19_sent_limits_any_completion_order) about the hand model Model.submit of Batch._submit composed with the GENERATED bunching: '
+               'What is SENT: six further theorems (C19_sent_exactly, C19_sent_any_completion_order, C19_sent_limits, '
+               'C19_sent_limits_any_completion_order, C19_sent_stages, C19_sent_happens_before) about the hand model Model.submit of Batch._submit composed with the GENERATED bunching: '
                'on the fast path (create-fast / update-fast, at most one bunch) and on the slow path (job-groups/create per bunch sequentially, '
                'then jobs/create per bunch concurrently, then commit), for a new batch or an update, the job-group payloads concatenate to '
                'the job-group specs in order, every job spec is sent exactly once for EVERY completion order of the concurrent job requests, '
                'every group-carrying request precedes every job-carrying request, and every request carries <= max_bunch_size specs and '
-               '< max_bunch_bytesize bytes of specs. Model.submit is NOT generated from the source: it is tied by the correspondence run '
+               '< max_bunch_bytesize bytes of specs. Happens-before is explicit: Model.submit_stages lists the stages of a submission (a '
+               'request starts only after every request of every earlier stage has completed): create; ONE stage per job-groups/create '
+               'request in bunch order (sequential); all jobs/create requests together; commit; and in every order compatible with it in '
+               'which the server can receive the requests the job groups arrive in their original order and every job once. '
+               'Model.submit / submit_stages are NOT generated from the source: it is tied by the correspondence run '
                '(real Batch._submit and public create_job_group/create_job + Batch.submit against a recording fake client, request by request, '
-               'small-scope grid + random + >1024-spec and >1 MiB submissions with the client\'s default limits), i.e. checked on the '
+               'small-scope grid + random + >1024-spec and >1 MiB submissions with the client\'s default limits; the recorded (start, end) '
+               'intervals of the requests are compared with the stages, the fake server answering adversarially - later requests faster - , '
+               'randomly or at once; in the oracle the fake server also applies the front end\'s rule to nested job groups made with the public '
+               'API: a job group landing before its parent, or a job before its job group, is refused), i.e. checked on the '
                'explored inputs, not proved.',
     level_note='Trusted: Coq kernel; harness/translate/pyast.py (Python-ast subset -> Gallina) and the structural check that the two list '
                'comprehensions are order-preserving maps; orjson shim (json.dumps) only determines byte sizes, which the theorems quantify over.',
@@ -158,8 +165,11 @@ def _submit_cases(ctx, n_random, n_big):
     rng = ctx.rng
     out = []
 
-    def case(g, j, mb, ms, created, mode='specs'):
-        out.append({'g': list(g), 'j': list(j), 'mb': mb, 'ms': ms, 'created': bool(created), 'seed': len(out) * 7919 + 1, 'mode': mode})
+    def case(g, j, mb, ms, created, mode='specs', nest=None, delay=None):
+        # answer delays: adversarial (the later a request is started the faster it is answered), random, none - by turns
+        delay = delay or ('decreasing', 'random', 'decreasing', 'zero', 'random')[len(out) % 5]
+        out.append({'g': list(g), 'j': list(j), 'mb': mb, 'ms': ms, 'created': bool(created), 'seed': len(out) * 7919 + 1, 'mode': mode,
+                    'nest': nest, 'delay': delay})
 
     # count-driven: every (n_groups, n_jobs) around the bunch boundaries
     for created in (False, True):
@@ -179,6 +189,12 @@ def _submit_cases(ctx, n_random, n_big):
         for ms in (1, 2, 3, 5):
             for ng, nj in ((0, 0), (0, 1), (1, 0), (1, 1), (1, 2), (2, 3), (3, 2), (4, 7), (5, 5)):
                 case([i % 4 for i in range(ng)], [i % 6 for i in range(nj)], None, ms, created, mode='api')
+            # NESTED job groups (a child names its parent by in_update_parent_id; the fake server refuses a child whose parent has
+            # not landed), spread over several bunches, every delay mode
+            for nest in ('chain', 'tree'):
+                for ng, nj in ((2, 0), (3, 1), (5, 3), (7, 3), (9, 0), (13, 5)):
+                    for delay in ('decreasing', 'random', 'zero'):
+                        case([i % 4 for i in range(ng)], [i % 6 for i in range(nj)], None, ms, created, mode='api', nest=nest, delay=delay)
     for _ in range(n_random):
         mb = rng.choice([41, 50, 64, 100, 1000, None])
         ms = rng.choice([1, 2, 3, 5, 7, 16, None])
@@ -225,13 +241,33 @@ def _submit_failures(case, res):
     def fail(key, what, expected=None):
         fails.append(Failure(key, what, case, expected, {'error': res['error'], 'events': res['events'][:40], 'mb': res['mb'], 'ms': res['ms']}))
 
+    evs = sorted(res['events'], key=lambda e: e['s'])
+    # happens-before (C19_sent_stages): a request carrying job groups may only START after every earlier request carrying job groups has
+    # COMPLETED (a job group must land after its parent, and the landing order of requests in flight together is the server's choice)
+    gev = [e for e in evs if e['g']]
+    for a, b in zip(gev, gev[1:]):
+        if a['e'] is None or a['e'] > b['s']:
+            fail('sent-order:job-groups-concurrent', 'a request carrying job groups was started before the previous request carrying job groups '
+                                                     'had completed: the order in which the job groups reach the server is no longer their order',
+                 'each job-groups/create request awaited before the next is sent')
+            break
+    for what, ident, missing in res.get('refusals', []):
+        # the real front end's rule, applied by the fake server when a request lands
+        fail('server-refused:' + what, f'the server refused {what.split("-before-")[0].replace("-", " ")} {ident}: '
+                                       f'{what.split("-before-")[1].replace("-", " ")} {missing} had not reached it yet')
+        break
+    if res.get('refusals'):
+        return fails
     if res['error'] is not None:
         # the code asserts that every single spec is below the byte limit; our cases respect it
         fail('submit-raises', f'Batch._submit raised {res["error"]}')
         return fails
     ng, nj = len(res['gsizes']), len(res['jsizes'])
     mb, ms = res['mb'], res['ms']
-    evs = sorted(res['events'], key=lambda e: e['s'])
+    landed_g = [x for e in sorted(gev, key=lambda e: e['e']) for x in e['g']]
+    if landed_g != [x for e in gev for x in e['g']]:
+        fail('sent-job-groups:landing-order', 'the job-group specs reached the server (completion order of the requests) in another order than '
+                                              'they were sent in', [x for e in gev for x in e['g']])
     sent_g = [x for e in evs for x in e['g']]
     want_g = list(range(ng))
     if sent_g != want_g:
@@ -269,8 +305,8 @@ def _submit_correspond(ctx, cases, results):
     header = ('From Coq Require Import ZArith List. Import ListNotations. From HailV Require Import Bunches.Model. '
               'From HailG Require Import C19.Gen. Open Scope Z_scope.\n'
               'Definition run (created : bool) (g j : list (Z * Z)) (mb ms : Z) :=\n'
-              '  map (fun '"'"'(k, a, b) => (k, map fst a, map fst b))\n'
-              '      (encode (submit_specs (fun tg tj => create_bunches (fun e : (Z * Z) * bool => snd (fst e)) tg tj mb ms) created g j)).')
+              '  map (map (fun '"'"'(k, a, b) => (k, map fst a, map fst b)))\n'
+              '      (encode_stages (submit_stages created (create_bunches (fun e : (Z * Z) * bool => snd (fst e)) (tag false g) (tag true j) mb ms))).')
     exprs, used = [], []
     for c, r in zip(cases, results):
         if r['error'] is not None:
@@ -287,10 +323,32 @@ def _submit_correspond(ctx, cases, results):
         canon = _canonical_trace(r)
         path = 'fast' if any(e['k'] in (3, 4) for e in r['events']) else 'slow' if any(e['k'] == 2 for e in r['events']) else 'empty'
         hist[path] = hist.get(path, 0) + 1
-        m = [list(x) if isinstance(x, tuple) else x for x in m]
-        m = [[k, list(a), list(b)] for k, a, b in m]
-        if m != canon:
-            dis.append(Disagreement('Model.submit~Batch._submit', c, m, canon))
+        stages = [[[k, list(a), list(b)] for k, a, b in st] for st in m]
+        flat = [x for st in stages for x in st]         # = Model.submit (C19_sent_stages: concat stages = submit)
+        if flat != canon:
+            dis.append(Disagreement('Model.submit~Batch._submit', c, flat, canon))
+            continue
+        # the model's happens-before relation against the recorded intervals: every request of a stage must have been STARTED
+        # after every request of every earlier stage had COMPLETED (logical clock of the fake server)
+        todo = sorted(r['events'], key=lambda e: e['s'])
+        done_before = 0
+        bad = None
+        for si, st in enumerate(stages):
+            evs = []
+            for item in st:
+                e = next((e for e in todo if [e['k'], e['g'], e['j']] == item), None)
+                if e is not None:
+                    todo.remove(e)
+                    evs.append(e)
+            early = [e for e in evs if e['s'] < done_before]
+            if early:
+                bad = {'stage': si, 'request': [early[0]['k'], early[0]['g'], early[0]['j']], 'started': early[0]['s'],
+                       'earlier_stages_completed': done_before}
+                break
+            done_before = max([done_before] + [e['e'] if e['e'] is not None else 10 ** 9 for e in evs])
+        if bad:
+            dis.append(Disagreement('Model.submit_stages~Batch._submit (happens-before)', c, {'stages': stages[:12]},
+                                    {'violation': bad, 'intervals': [[e['k'], e['g'], e['j'], e['s'], e['e']] for e in r['events'][:12]]}))
     return dis, hist, len(used)
 
 
@@ -329,13 +387,14 @@ def correspond(ctx):
                      'real Batch._create_bunches (specs padded to the requested serialised size) vs generated Gallina evaluated by vm_compute'
                      ' | submission path: (group sizes, job sizes, limits, new batch/update, private _submit or public API, answer-delay seed); '
                      'requests recorded by a fake BatchClient from the real Batch._submit / Batch.submit vs Model.submit composed with the '
-                     'generated bunching, request by request (concurrent jobs/create runs sorted by first job id)',
+                     'generated bunching, request by request (concurrent jobs/create runs sorted by first job id), and the recorded '
+                     '(start, end) intervals against the happens-before stages of Model.submit_stages',
                 samples=[{'case': c, 'bunches': i} for c, i in list(zip(cases, impl))[-3:]]
                         + [{'case': {k: (v if not isinstance(v, list) or len(v) < 12 else f'{len(v)} sizes') for k, v in c.items()},
                             'requests': _canonical_trace(r)[:6]} for c, r in list(zip(scases, sres))[200:203]],
                 disagreements=dis + sdis,
                 histograms={'n_bunches': {str(k): v for k, v in sorted(hist.items(), key=lambda kv: str(kv[0]))}, 'submit_path': shist},
-                names=['Gen.create_bunches~Batch._create_bunches', 'Model.submit~Batch._submit'])
+                names=['Gen.create_bunches~Batch._create_bunches', 'Model.submit~Batch._submit', 'Model.submit_stages~Batch._submit (happens-before)'])
 
 
 def oracle(ctx, budget):
@@ -369,7 +428,9 @@ def oracle(ctx, budget):
                                           + len({str(c) for c in scases if len(c['g']) + len(c['j']) >= 2}),
                    'rule': 'oracle: concat/limits recomputed in Python on the real method output; what Batch._submit SENT to a recording fake '
                            'client: job-group payloads in request order = job-group specs, job payloads = each job spec once and in order, '
-                           'job-carrying requests start after all group-carrying requests completed, commit last, limits per request',
+                           'job-carrying requests start after all group-carrying requests completed, each group-carrying request starts after the previous one '
+                           'completed, landing order of job groups = their order, no nested job group / job refused by the fake server for '
+                           'arriving before its parent / job group, commit last, limits per request',
                    'histograms': {'oracle_submit_path': dict(sorted(paths.items()))}}
 
 
